@@ -2,23 +2,26 @@
 (* RefAbs + trace validation for C10: the atomic count operations, obtains and recycles of a real run (observed by the      *)
 (* controlled scheduler in the order they really happened) must be a behaviour of the abstract reference-count machine:       *)
 (* an object is obtained only when it is in the pool, counted only while it is live, recycled exactly when its count has      *)
-(* returned to zero, and never touched afterwards until it is obtained again.                                                 *)
+(* returned to zero (a pooled object by its pool, a heap-allocated copy by delete - never the other way round), and never     *)
+(* touched afterwards until it is obtained again.                                                 *)
 EXTENDS Naturals, Sequences, TLC, Json, IOUtils
 CONSTANT MaxObj
-VARIABLES cnt, alive, l
+VARIABLES cnt, alive, heap, l
 TraceLog == ndJsonDeserialize(IOEnv.TRACE)
 N == Len(TraceLog)
 Objs == 1..MaxObj
-Init == cnt = [o \in Objs |-> 0] /\ alive = [o \in Objs |-> FALSE] /\ l = 1 /\ TLCSet(1, 0)
+Init == cnt = [o \in Objs |-> 0] /\ alive = [o \in Objs |-> FALSE] /\ heap = [o \in Objs |-> FALSE] /\ l = 1 /\ TLCSet(1, 0)
 Step(ln) ==
-   CASE ln.e = "Obtain"  -> ~alive[ln.o] /\ cnt[ln.o] = 0 /\ alive' = [alive EXCEPT ![ln.o] = TRUE] /\ UNCHANGED cnt
-     [] ln.e = "Inc"     -> alive[ln.o] /\ cnt' = [cnt EXCEPT ![ln.o] = @ + 1] /\ UNCHANGED alive
-     [] ln.e = "Dec"     -> alive[ln.o] /\ cnt[ln.o] > 0 /\ cnt' = [cnt EXCEPT ![ln.o] = @ - 1] /\ UNCHANGED alive
-     [] ln.e = "Recycle" -> alive[ln.o] /\ cnt[ln.o] = 0 /\ alive' = [alive EXCEPT ![ln.o] = FALSE] /\ UNCHANGED cnt
-     [] ln.e = "Reset"   -> (\A o \in Objs : ~alive[o] /\ cnt[o] = 0) /\ UNCHANGED <<cnt, alive>>
+   CASE ln.e = "Obtain"  -> ~alive[ln.o] /\ cnt[ln.o] = 0 /\ alive' = [alive EXCEPT ![ln.o] = TRUE] /\ heap' = [heap EXCEPT ![ln.o] = FALSE] /\ UNCHANGED cnt
+     [] ln.e = "Alloc"   -> ~alive[ln.o] /\ cnt[ln.o] = 0 /\ alive' = [alive EXCEPT ![ln.o] = TRUE] /\ heap' = [heap EXCEPT ![ln.o] = TRUE] /\ UNCHANGED cnt     \* new T(*pooledObject): a heap copy
+     [] ln.e = "Inc"     -> alive[ln.o] /\ cnt' = [cnt EXCEPT ![ln.o] = @ + 1] /\ UNCHANGED <<alive, heap>>
+     [] ln.e = "Dec"     -> alive[ln.o] /\ cnt[ln.o] > 0 /\ cnt' = [cnt EXCEPT ![ln.o] = @ - 1] /\ UNCHANGED <<alive, heap>>
+     [] ln.e = "Recycle" -> alive[ln.o] /\ ~heap[ln.o] /\ cnt[ln.o] = 0 /\ alive' = [alive EXCEPT ![ln.o] = FALSE] /\ UNCHANGED <<cnt, heap>>       \* back to its pool
+     [] ln.e = "Delete"  -> alive[ln.o] /\ heap[ln.o] /\ cnt[ln.o] = 0 /\ alive' = [alive EXCEPT ![ln.o] = FALSE] /\ UNCHANGED <<cnt, heap>>        \* a heap object is deleted, never pooled
+     [] ln.e = "Reset"   -> (\A o \in Objs : ~alive[o] /\ cnt[o] = 0) /\ UNCHANGED <<cnt, alive, heap>>
      [] OTHER -> FALSE
 Next == l <= N /\ Step(TraceLog[l]) /\ l' = l + 1
-Spec == Init /\ [][Next]_<<cnt, alive, l>>
+Spec == Init /\ [][Next]_<<cnt, alive, heap, l>>
 NotAccepted == l <= N
 Track == TLCSet(1, IF TLCGet(1) > l THEN TLCGet(1) ELSE l)
 Report == PrintT(<<"maxline", TLCGet(1), "of", N>>)
